@@ -33,6 +33,8 @@ def alphabet():
         ("rel", "D", "generation", None, (x, None, None)),
         ("rel", "B1", "generation", ("A", "g", Q("ex")), (x, ("A", "a", Q("ex")), None)),
         ("at", ("A", "k", Q("ex")), "s_a"),
+        # PROV-DM argument names as additional attributes of records that do not have that argument
+        ("at", ("P", "plan", Q("prov")), "q_exA"), ("at", ("P", "time", Q("prov")), "d_naive"),
         # falsy values (0, '', False) must be carried over like any other
         ("at", ("A", "k", Q("ex")), "i_0"), ("at", ("P", "label", Q("prov")), "s_empty"), ("at", ("A", "k", Q("ex")), "b_F"),
     ]
